@@ -1615,6 +1615,20 @@ pub(crate) fn compile_ast_to_ir_to_asm(
         }
     }
 
+    // Verification hook: an environment selected pass list replaces the optimization passes.
+    #[cfg(feature = "fuellabs_sway_verif")]
+    if let Ok(selected) = std::env::var("SWAY_VERIF_IR_PASSES") {
+        match verif_env_pass_group(&pass_mgr, &selected, build_config) {
+            Ok(group) => pass_group = group,
+            Err(msg) => {
+                return Err(handler.emit_err(CompileError::InternalOwned(
+                    msg,
+                    span::Span::dummy(),
+                )))
+            }
+        }
+    }
+
     // Run the passes.
     let mut options: Options = (&build_config.print_ir).into();
 
@@ -1635,6 +1649,56 @@ pub(crate) fn compile_ast_to_ir_to_asm(
     res?;
 
     compile_ir_context_to_finalized_asm(handler, &ir, Some(build_config))
+}
+
+/// Verification hook (`SWAY_VERIF_IR_PASSES`): builds the pass group that replaces the one of
+/// `compile_ast_to_ir_to_asm`. The value is `<passes>` or `<passes>|<tail>`, both comma separated
+/// lists of registered pass names, run in the given order (an empty list is allowed).
+/// `lower-init-aggr` always runs first. Without an explicit `|<tail>` the `<passes>` are followed
+/// by the FuelVM target specific passes of `OptLevel::Opt0`, which the backend relies on.
+#[cfg(feature = "fuellabs_sway_verif")]
+fn verif_env_pass_group(
+    pass_mgr: &PassManager,
+    selected: &str,
+    build_config: &BuildConfig,
+) -> Result<PassGroup, String> {
+    let (head, tail) = match selected.split_once('|') {
+        Some((head, tail)) => (head, Some(tail)),
+        None => (selected, None),
+    };
+    let mut names: Vec<&'static str> = vec![INIT_AGGR_LOWERING_NAME];
+    let resolve = |list: &str, names: &mut Vec<&'static str>| -> Result<(), String> {
+        for name in list.split(',').map(str::trim).filter(|n| !n.is_empty()) {
+            match pass_mgr.lookup_registered_pass(name) {
+                Some(pass) => names.push(pass.name),
+                None => return Err(format!("SWAY_VERIF_IR_PASSES: unknown pass \"{name}\"")),
+            }
+        }
+        Ok(())
+    };
+    resolve(head, &mut names)?;
+    match tail {
+        Some(tail) => resolve(tail, &mut names)?,
+        None => {
+            if build_config.build_target == BuildTarget::Fuel {
+                names.extend([
+                    CONST_DEMOTION_NAME,
+                    ARG_DEMOTION_NAME,
+                    RET_DEMOTION_NAME,
+                    MISC_DEMOTION_NAME,
+                    ARG_POINTEE_MUTABILITY_TAGGER_NAME,
+                    MEMCPYOPT_NAME,
+                    DCE_NAME,
+                    SIMPLIFY_CFG_NAME,
+                ]);
+            }
+        }
+    }
+    let mut group = PassGroup::default();
+    for name in names {
+        group.append_pass(name);
+    }
+    Ok(group)
 }
 
 /// Given input Sway source code, compile to [CompiledBytecode], containing the asm in bytecode form.
